@@ -241,6 +241,7 @@ fn ctl_bytes(ctl: i64) -> Option<Vec<u8>> {
     match ctl {
         1 => Some(ber::controls(&[ber::control("1.2.3.1", Some(true), Some(b"c1"))])),
         2 => Some(ber::controls(&[ber::control("1.2.3.2", None, None), ber::control("1.2.3.3", Some(true), Some(b"c3"))])),
+        3 => Some(ber::controls(&[])),
         _ => None,
     }
 }
@@ -349,6 +350,8 @@ fn abstract_req(raw: &[u8]) -> Value {
             1
         } else if Some(&cb) == ctl_bytes(2).map(|b| canon(&b)).as_ref() {
             2
+        } else if Some(&cb) == ctl_bytes(3).map(|b| canon(&b)).as_ref() {
+            3
         } else {
             -1
         }
@@ -837,6 +840,7 @@ macro_rules! lane_steps {
             match st.ctl {
                 1 => { $conn.with_controls(ctl1()); }
                 2 => { $conn.with_controls(ctl2()); }
+                3 => { $conn.with_controls(Vec::<RawControl>::new()); }
                 _ => {}
             }
             if st.tmo != 0 { $conn.with_timeout(TMO); }
